@@ -95,6 +95,8 @@ type c19Case struct {
 	Missing  []string          `json:"missing,omitempty"`
 	ProvOK   bool              `json:"prov_ok,omitempty"`
 	Note     string            `json:"note,omitempty"`
+	// kind "urls": strings handed to url.Parse (differential check of the Gallina splitter)
+	URLs []string `json:"urls,omitempty"`
 }
 
 type c19Req struct {
@@ -114,7 +116,22 @@ type c19URL struct {
 	User                    string
 }
 
+// what url.Parse answered for one string
+type c19Split struct {
+	S        string `json:"s"`
+	Err      bool   `json:"err,omitempty"`
+	Scheme   string `json:"scheme,omitempty"`
+	Host     string `json:"host,omitempty"`
+	Path     string `json:"path,omitempty"`
+	HasUser  bool   `json:"has_user,omitempty"`
+	User     string `json:"user,omitempty"` // Username[:Password]
+	Hostname string `json:"hostname,omitempty"`
+	Port     string `json:"port,omitempty"`
+}
+
 type c19Obs struct {
+	Split    []c19Split        `json:"split,omitempty"`
+	ParseErr []string          `json:"-"`
 	Reqs    []c19Req          `json:"reqs"`
 	Failed  bool              `json:"failed"`
 	Panic   string            `json:"panic,omitempty"`
@@ -473,12 +490,86 @@ func c19ChartRef(r *rand.Rand, scheme, host, path string) (string, string) {
 	return "abs-" + rel, s2 + "://" + h2 + p + file
 }
 
+
+// ---------------------------------------------------------------- URL strings for the splitter
+
+var (
+	c19USchemes = []string{"http", "https", "HTTP", "Https", "hTTp", "ftp", "oci", "h2c+x", "a.b-c", "1http", "+x", "ht tp", "http\x01", ""}
+	c19USeps    = []string{"://", "://", "://", "://", ":", ":/", ":///", "//", "", "/", ":\\\\"}
+	c19UUsers   = []string{"", "", "", "u@", "u:p@", "u:p:q@", ":@", "@", "a@b@", "u!$&'()*+,;=@", "u p@", "u/p@", "U%41@", "\xc3\xa9@", "u:@"}
+	c19UNames   = []string{"repo.example", "Repo.Example", "REPO.EXAMPLE", "repo.example.", "h", "", "localhost", "127.0.0.1", "[::1]", "[::1", "::1]", "[::1]x",
+		"[2001:db8::1]", "[fe80::1%25en0]", "[::FFFF:1.2.3.4]", "[]", "a b", "a\\b", "a^b", "a<b>", "a\"b", "a|b", "a{b}", "a`b", "a_b~c", "a!$&'()*+,;=b", "\xc3\xa9.example",
+		"a:b", "a%2fb", "xn--e1afmkfd.test"}
+	c19UPorts   = []string{"", "", "", ":", ":80", ":443", ":8080", ":080", ":0", ":65536", ":8a", ":-1", ":80:90", "::80", ": 80", ":80 "}
+	c19UPaths   = []string{"", "", "/", "/charts", "/charts/", "/a/b/c-1.0.0.tgz", "/a:b", "//x", "///x", "/a b", "/@evil.test/x", "/a%20b", "/a%zz", "/\xc3\xa9", "/a\\b", "/*", "/a;b=c", "/..//./x"}
+	c19UQueries = []string{"", "", "", "?", "?a=1", "?a=b?c", "?x=/@evil.test", "?a=%41", "??", "?#"}
+	c19UFrags   = []string{"", "", "", "#", "#f", "#f\x01", "#a#b", "#/@h", "#%zz"}
+	c19UOddities = []string{"*", "*#f", "", "#", "?", "a:b", "a/b:c", "a:b/c", ":", "://", "1a:b", "/a:b", "./a:b", "mailto:u@h.test", "http:x", "http:/x", "//h.test/p", "///h.test/p",
+		"////h.test", "http:////h.test", "cache_object:foo/bar", "h.test:8080/p", "h.test:8080", "localhost:80", "http://h.test\x7f/", "http://h.test/\n", "a\tb",
+		"http://h.test?x", "http://h.test#f", "http://h.test?", "http://@h.test", "http://:80", "http://:", "http://[::1]:80:90/", "http://[::1]]:80/", "http://[[::1]]/"}
+	c19UMutBytes = []byte("/:@?#[]% .\\\x01\x7f\x80aZ09+-_~!*'\"<>^`{|}")
+)
+
+func c19Pick(r *rand.Rand, l []string) string { return l[r.Intn(len(l))] }
+
+// one URL-ish string: a structured spelling, now and then an oddity or a byte-level mutation
+func c19GenURL(r *rand.Rand) string {
+	if r.Intn(12) == 0 {
+		return c19Pick(r, c19UOddities)
+	}
+	s := c19Pick(r, c19USchemes) + c19Pick(r, c19USeps) + c19Pick(r, c19UUsers) + c19Pick(r, c19UNames) + c19Pick(r, c19UPorts) +
+		c19Pick(r, c19UPaths) + c19Pick(r, c19UQueries) + c19Pick(r, c19UFrags)
+	for r.Intn(5) == 0 {
+		b := []byte(s)
+		i := r.Intn(len(b) + 1)
+		c := c19UMutBytes[r.Intn(len(c19UMutBytes))]
+		switch r.Intn(3) {
+		case 0:
+			b = append(b[:i], append([]byte{c}, b[i:]...)...)
+		case 1:
+			if i < len(b) {
+				b[i] = c
+			}
+		default:
+			if i < len(b) {
+				b = append(b[:i], b[i+1:]...)
+			}
+		}
+		s = string(b)
+	}
+	return s
+}
+
+func c19SplitOf(s string) c19Split {
+	out := c19Split{S: s}
+	u, err := url.Parse(s)
+	if err != nil {
+		out.Err = true
+		return out
+	}
+	out.Scheme, out.Host, out.Path, out.Hostname, out.Port = u.Scheme, u.Host, u.Path, u.Hostname(), u.Port()
+	if u.User != nil {
+		out.HasUser, out.User = true, u.User.Username()
+		if pw, ok := u.User.Password(); ok {
+			out.User += ":" + pw
+		}
+	}
+	return out
+}
+
 func (*c19) Generate(r *rand.Rand, i int) any {
-	kinds := []string{"getter", "getter", "getter", "download", "download", "locate", "locate", "pull", "manager", "manager", "index"}
+	kinds := []string{"getter", "getter", "getter", "download", "download", "locate", "locate", "pull", "manager", "manager", "index", "urls"}
 	return c19Normalize(c19Gen(r, kinds[r.Intn(len(kinds))]))
 }
 
 func c19Gen(r *rand.Rand, kind string) c19Case {
+	if kind == "urls" {
+		c := c19Case{Kind: kind}
+		for k := 0; k < 40; k++ {
+			c.URLs = append(c.URLs, c19GenURL(r))
+		}
+		return c
+	}
 	c := c19Case{Kind: kind, ProvOK: r.Intn(2) == 0, Redirect: map[string]string{}}
 	scheme, host, path := c19RepoURL(r)
 	repoURL := scheme + "://" + host + path
@@ -674,6 +765,54 @@ func (*c19) Exhaustive(tier string) []any {
 		"http://repo.example:443", "https://repo.example:80", "http://repo.example:", "HTTP://repo.example",
 		"http://[::1]", "http://[::1]:80", "http://[::1]:443"}
 	var out []any
+	// the splitter: every host x port spelling, every scheme x separator, every userinfo, every
+	// path x query x fragment on a fixed rest (+ oddities); thorough: the full product of the
+	// scheme / separator / userinfo / host / port tables.  120 strings a case.
+	{
+		var all []string
+		all = append(all, c19UOddities...)
+		for _, h := range c19UNames {
+			for _, pt := range c19UPorts {
+				all = append(all, "http://"+h+pt+"/p", "https://u:p@"+h+pt)
+			}
+		}
+		for _, sc := range c19USchemes {
+			for _, sep := range c19USeps {
+				all = append(all, sc+sep+"h.test/p", sc+sep+"u@h.test:80")
+			}
+		}
+		for _, us := range c19UUsers {
+			all = append(all, "http://"+us+"h.test/p", "//"+us+"h.test", "http://"+us+"[::1]:80/p")
+		}
+		for _, pa := range c19UPaths {
+			for _, q := range c19UQueries {
+				for _, f := range []string{"", "#f", "#/@evil.test"} {
+					all = append(all, "http://h.test"+pa+q+f)
+				}
+			}
+		}
+		if tier == "thorough" {
+			for _, sc := range c19USchemes {
+				for _, sep := range c19USeps {
+					for _, us := range c19UUsers {
+						for _, h := range c19UNames {
+							for _, pt := range c19UPorts {
+								all = append(all, sc+sep+us+h+pt+"/a:b?x=/@evil.test#f")
+							}
+						}
+					}
+				}
+			}
+		}
+		for len(all) > 0 {
+			n := 120
+			if len(all) < n {
+				n = len(all)
+			}
+			out = append(out, c19Case{Kind: "urls", URLs: all[:n]})
+			all = all[n:]
+		}
+	}
 	for _, a := range sp {
 		for _, b := range sp {
 			for _, pa := range []bool{false, true} {
@@ -827,6 +966,20 @@ func c19Normalize(c c19Case) c19Case {
 
 func (p *c19) Execute(ci any) (res any) {
 	c := c19Normalize(ci.(c19Case))
+	if c.Kind == "urls" {
+		obs := c19Obs{Parse: map[string]c19URL{}, Tab: map[string]string{}}
+		func() {
+			defer func() {
+				if x := recover(); x != nil {
+					obs.Panic = fmt.Sprint(x)
+				}
+			}()
+			for _, s := range c.URLs {
+				obs.Split = append(obs.Split, c19SplitOf(s))
+			}
+		}()
+		return obs
+	}
 	e := c19GetEnv()
 	obs := c19Obs{Parse: map[string]c19URL{}, Tab: map[string]string{}}
 	work, _ := os.MkdirTemp(e.root, "case-")
@@ -1042,6 +1195,7 @@ func c19Tables(c *c19Case, obs *c19Obs) {
 	for _, s := range keys {
 		u, err := url.Parse(s)
 		if err != nil {
+			obs.ParseErr = append(obs.ParseErr, s)
 			continue
 		}
 		cu := c19URL{Scheme: u.Scheme, Host: u.Host, Path: u.Path, Str: u.String()}
@@ -1194,6 +1348,22 @@ func (*c19) Oracle(ci, oi any) []hx.Violation {
 		vs = append(vs, hx.Violation{Sig: "C19:" + sig, What: what})
 	}
 	c19CheckHyps(&obs, flag)
+	if c.Kind == "urls" {
+		// the Host the getter compares is the Host the request is made to
+		for _, sp := range obs.Split {
+			if sp.Err || sp.Host == "" || (sp.Scheme != "http" && sp.Scheme != "https") {
+				continue
+			}
+			req, err := http.NewRequest(http.MethodGet, sp.S, nil)
+			if err != nil {
+				continue
+			}
+			if req.URL.Host != c19WireHost(sp.Host) || (req.Host != "" && req.Host != c19WireHost(sp.Host)) {
+				flag("hyp-request-host", fmt.Sprintf("url.Parse(%q).Host = %q but the request goes to %q", sp.S, sp.Host, req.URL.Host))
+			}
+		}
+		return vs
+	}
 	if c.Kind == "getter" {
 		// replay of the option lists: the pair in force when each Get was made
 		cur := struct {
@@ -1355,6 +1525,13 @@ func (*c19) CoqCase(ci, oi any) string {
 	cpo := fmt.Sprintf("(mkCpo %s %s %s %s \"\" %s)", hx.CoqStr(c.RepoURL), hx.CoqStr(c.User), hx.CoqStr(c.Pass), hx.CoqBool(c.PassAll), hx.CoqBool(c.Verify > 0))
 	var path string
 	switch c.Kind {
+	case "urls":
+		var it []string
+		for _, sp := range obs.Split {
+			it = append(it, hx.CoqPair(hx.CoqStr(sp.S), hx.CoqOpt(fmt.Sprintf("(mkUS %s %s %s %s %s %s)", hx.CoqStr(sp.Scheme), hx.CoqOpt(hx.CoqStr(sp.User), sp.HasUser),
+				hx.CoqStr(sp.Host), hx.CoqStr(sp.Path), hx.CoqStr(sp.Hostname), hx.CoqStr(sp.Port)), !sp.Err)))
+		}
+		path = "PUrls " + hx.CoqList(it)
 	case "getter":
 		var gets []string
 		for _, g := range c.Gets {
@@ -1373,11 +1550,31 @@ func (*c19) CoqCase(ci, oi any) string {
 		dr := c19DepRepoURL(&c)
 		path = fmt.Sprintf("PManager %s \"a\" \"1.0.0\" %s %s", hx.CoqStr(dr), hx.CoqBool(c.Verify > 0), hx.CoqBool(obs.FirstOK))
 	}
-	return fmt.Sprintf("mkCase %s %s %s %s (%s) %s", hx.CoqList(parse), hx.CoqList(equal), hx.CoqList(tab), hx.CoqList(repos), path, hx.CoqList(reqs))
+	perr := append([]string(nil), obs.ParseErr...)
+	sort.Strings(perr)
+	return fmt.Sprintf("mkCase %s %s %s %s %s (%s) %s", hx.CoqList(parse), hx.CoqStrList(perr), hx.CoqList(equal), hx.CoqList(tab), hx.CoqList(repos), path, hx.CoqList(reqs))
 }
 
 func (*c19) Class(ci, oi any) string {
 	c, obs := ci.(c19Case), oi.(c19Obs)
+	if c.Kind == "urls" {
+		ok, bad, out := 0, 0, 0
+		for _, sp := range obs.Split {
+			switch {
+			case strings.Contains(sp.S, "%"):
+				out++
+			case sp.Err:
+				bad++
+			default:
+				ok++
+			}
+		}
+		for k, n := range map[string]int{"url strings parsed": ok, "url strings rejected by url.Parse": bad, "url strings outside the grammar (%)": out} {
+			m, _ := hx.Extra[k].(int)
+			hx.Extra[k] = m + n
+		}
+		return "urls"
+	}
 	sent, follow := "withheld", ""
 	for _, rq := range obs.Reqs {
 		if rq.Auth {
@@ -1399,6 +1596,16 @@ func (*c19) Class(ci, oi any) string {
 
 func (*c19) NonTrivial(ci, oi any) bool {
 	c, obs := ci.(c19Case), oi.(c19Obs)
+	if c.Kind == "urls" {
+		host, rej := false, false
+		for _, sp := range obs.Split {
+			if !strings.Contains(sp.S, "%") {
+				host = host || (!sp.Err && sp.Host != "")
+				rej = rej || sp.Err
+			}
+		}
+		return host && rej
+	}
 	if len(obs.Reqs) == 0 {
 		return false
 	}
